@@ -735,7 +735,7 @@ pub fn supervise(engine: &dyn Engine, tier: Tier, vseed: u64) -> RunOutcome {
     // ---------------------------------------------------------------- verdict
     for (id, n) in &known_hit {
         println!(
-            "KNOWN-FINDING: property={prop} {} (matched {n} case(s) in this run)",
+            "KNOWN-FINDING: {} (matched {n} case(s) in this run)",
             known.get(id).cloned().unwrap_or_default()
         );
     }
